@@ -16,7 +16,7 @@
       [validate_connections fixed m]  the issues of the Validator's interface and equivalence-structure checks;
       [link_model m], [has_unlinked m], [clean_model m]  Model::linkUnits, hasUnlinkedUnits, clean. *)
 From Coq Require Import String List Bool.
-From LC Require Import IfaceDefs IfaceSpec IfaceProofs IfaceMinProofs IfaceOwnDefs IfaceOwnProofs.
+From LC Require Import IfaceDefs IfaceSpec IfaceProofs IfaceMinProofs IfaceOwnDefs IfaceOwnProofs IfaceRound5Proofs.
 From LCGen Require Import IfaceTable.
 Import ListNotations.
 Local Open Scope string_scope.
@@ -389,6 +389,20 @@ Theorem C19_clean_frame : forall m,
   m_tag (clean_model m) = m_tag m /\ m_ext (clean_model m) = m_ext m.
 Proof. exact IfaceProofs.P_clean_frame. Qed.
 Print Assumptions C19_clean_frame.
+
+(** Round 5. clean() is idempotent, on every model (no ownership, no tag-uniqueness hypothesis): a second call
+    changes neither the component tree, nor the units list, nor any units object (parents included), nor the
+    rest of the model. *)
+Theorem C19_clean_idempotent : forall m, clean_model (clean_model m) = clean_model m.
+Proof. exact IfaceRound5Proofs.clean_idempotent. Qed.
+Print Assumptions C19_clean_idempotent.
+
+(** ... and every top-level component left by clean() is a fixed point of traverseHierarchyAndRemoveIfEmpty,
+    which reports it "not empty". *)
+Theorem C19_clean_fixpoint_comps : forall m c,
+  In c (m_comps (clean_model m)) -> clean_comp c = (c, false).
+Proof. exact IfaceRound5Proofs.clean_fixpoint_comps. Qed.
+Print Assumptions C19_clean_fixpoint_comps.
 
 Example C19_clean_nonvacuous :
   map (fun r => snd (fst (fst (fst r)))) (model_rows m_clean) = [1; 2; 3; 4; 5; 6; 7] /\
